@@ -412,7 +412,7 @@ fn node_spec(rng: &mut StdRng, id: u8, n_ports: usize, allow_low_class: bool) ->
 }
 
 pub fn gen_topo(rng: &mut StdRng) -> Topo {
-    let family = rng.gen_range(0..7);
+    let family = rng.gen_range(0..8);
     let mut nodes: Vec<NodeSpec> = vec![];
     let mut links: Vec<LinkSpec> = vec![];
     let link = |rng: &mut StdRng, ends: Vec<(usize, usize)>| LinkSpec { ends, delay_ns: rng.gen_range(1_000..500_000), jitter_ns: rng.gen_range(0..50_000), initially_up: true };
@@ -482,6 +482,31 @@ pub fn gen_topo(rng: &mut StdRng) -> Topo {
                 links.push(link(rng, vec![(0, i), (1 + i, 0)]));
             }
         }
+        7 => {
+            // full mesh of boundary clocks over point-to-point links, the ports of every node in a
+            // random order: each node hears a candidate on every port
+            name = "full-mesh";
+            let n = rng.gen_range(4..=5usize);
+            for i in 0..n {
+                nodes.push(node_spec(rng, 0x10 + i as u8, n - 1, false));
+            }
+            let mut free: Vec<Vec<usize>> = (0..n)
+                .map(|_| {
+                    let mut p: Vec<usize> = (0..n - 1).collect();
+                    for k in (1..p.len()).rev() {
+                        p.swap(k, rng.gen_range(0..=k));
+                    }
+                    p
+                })
+                .collect();
+            for a in 0..n {
+                for b in a + 1..n {
+                    let pa = free[a].pop().unwrap();
+                    let pb = free[b].pop().unwrap();
+                    links.push(link(rng, vec![(a, pa), (b, pb)]));
+                }
+            }
+        }
         6 => {
             // a silent segment: only slave-only clocks until one of them is made master-capable
             name = "slave-only-segment";
@@ -522,7 +547,7 @@ pub fn gen_topo(rng: &mut StdRng) -> Topo {
     // Topologies with redundant paths count to infinity (stepsRemoved climbing to 255) after the
     // grandmaster disappears unless the path trace option breaks the loop; that is protocol
     // behaviour, not statime's, so those families run with path trace enabled.
-    if family == 2 || family == 5 {
+    if family == 2 || family == 5 || family == 7 {
         for n in nodes.iter_mut() {
             n.path_trace = true;
         }
